@@ -31,6 +31,22 @@ try:
         print("NasCountLemma FAILED")
         sys.exit(2)
     print("NasCountLemma (Apalache) ok")
+    # the clamp lemma module must state its lemmas about the very Min / Limit of Stg.tla
+    flat = lambda x: re.sub(r"\s+", " ", x)
+    stg = flat(open(os.path.join(vlib.SPEC, "Stg.tla")).read())
+    cl = open(os.path.join(vlib.SPEC, "StgClampLemma.tla")).read()
+    a = cl.index("Limit(c, ph) ==")
+    limit_def = flat(cl[a:cl.index("\n\n", a)])
+    if limit_def not in stg or "Min(a, b) == IF a < b THEN a ELSE b" not in stg or "Min(a, b) == IF a < b THEN a ELSE b" not in cl:
+        print("StgClampLemma.tla: Min / Limit differ from Stg.tla")
+        sys.exit(2)
+    ok, txt = vlib.run_apalache(d, "StgClampLemma", "Lemmas")
+    ok2, _ = vlib.run_apalache(d, "StgClampLemma", "ReleaseClampIsRegistrationClamp")
+    if not ok or ok2:
+        print(txt[-2000:])
+        print("StgClampLemma FAILED" if not ok else "StgClampLemma: the anti-vacuity statement was not refuted")
+        sys.exit(2)
+    print("StgClampLemma (Apalache) ok")
     cmds = sorted(os.listdir(os.path.join(vlib.HARNESS, "cmd")))
     sc.build(cmds)
     sc.build_emulator()
